@@ -157,3 +157,33 @@ def _kf8(prop, f):
 @classifier("KF9")
 def _kf9(prop, f):
     return _glue_explained(f, "KF9", set()) or _glue_explained(f, "KF9", {"KF8"})
+
+
+# ---------------------------------------------------------------------------------------------
+# KF10 (C18): newline inside a phrase / regex
+# ---------------------------------------------------------------------------------------------
+
+def _collapse_ws_in_delimited(d):
+    import re
+    r = dict(d)
+    if d["c"] in ("Phrase", "Regex"):
+        r["v"] = re.sub(r"\s+", " ", d["v"])
+    r["ch"] = [_collapse_ws_in_delimited(c) for c in d["ch"]]
+    return r
+
+
+@classifier("KF10")
+def _kf10(prop, f):
+    from . import common, parsing
+    inp = f.get("input") or {}
+    if "tree" not in inp or "pretty" not in inp:
+        return False
+    d = inp["tree"]
+    if not any(n["c"] in ("Phrase", "Regex") and "\n" in n["v"] for _, n in common.tree_nodes(d)):
+        return False
+    r, t = parsing.impl_parse(inp["pretty"])
+    if t is None:
+        return False
+    a = common.strip_tree(_collapse_ws_in_delimited(d))
+    b = common.strip_tree(_collapse_ws_in_delimited(r["ok"]))
+    return a == b
